@@ -34,6 +34,7 @@ type FuncSpec struct {
 	Requires  []*Clause
 	Ensures   []*Clause
 	Assigns   []string
+	AssignGlobals []string
 	Loops     map[string]*LoopSpec
 	Inline    bool
 	OpaqueFns []string
@@ -49,7 +50,7 @@ type FuncSpec struct {
 }
 
 func (s *FuncSpec) HasContract() bool {
-	return len(s.Requires) > 0 || len(s.Ensures) > 0 || len(s.Assigns) > 0 || s.Trusted
+	return len(s.Requires) > 0 || len(s.Ensures) > 0 || len(s.Assigns) > 0 || len(s.AssignGlobals) > 0 || s.Trusted
 }
 
 // ---------------- loops ----------------
@@ -669,6 +670,9 @@ func (x *Exec) havocLocation(loc Value, name string) {
 
 // proveCall executes the body of the function under contract and checks its frame.
 func (x *Exec) proveCall(fr *Frame, cm *calleeCtx, fn *ssa.Function, args []Value, pos token.Pos) Value {
+	if len(x.calleeMode) == 1 {
+		x.reqHyp = len(x.assumes)
+	}
 	cm.epoch = x.epoch
 	x.epoch++
 	cm.pre = x.st.heap.clone()
